@@ -158,6 +158,39 @@ def with_spare_server(spec, rng):
     return sp, [{"op": "setlink", "kind": "jobs", "name": j, "attr": "server", "target": svn} for j in jobs]
 
 
+def growth_op(spec, rng):
+    """structural growth: a job of a server the system does not use yet placed in a step that has no job (None if the
+    model has no such job / step)"""
+    reach0 = reachable_spec_names(spec)
+    idle = [j for j, o in spec["jobs"].items() if j not in reach0 and o["server"] not in reach0 and not str(j).endswith("_out")]
+    empty = [s_ for s_ in spec["steps"] if s_ in reach0 and not spec["steps"][s_]["jobs"]]
+    if idle and empty:
+        return {"op": "listop", "kind": "steps", "name": rng.choice(sorted(empty)), "attr": "jobs", "method": "append", "args": [rng.choice(sorted(idle))]}
+    return None
+
+
+def with_idle_jobs(spec, rng, n=3):
+    """(spec with n jobs hosted on a used server but not placed in any step — they contribute no load — and a storage no
+    server uses; the op that moves that server to the free storage)"""
+    sp = copy.deepcopy(spec)
+    reach_all = reachable_spec_names(sp)
+    used = sorted(s_ for s_ in sp["servers"] if s_ in reach_all)
+    if not used:
+        return spec, None
+    svn = rng.choice(used)
+    src = next((j for j, o in sp["jobs"].items() if o["server"] == svn and o["data_stored"]["m"] >= 0), None)
+    if src is None:
+        return spec, None
+    for k_ in range(n):
+        sp["jobs"][f"j{len(sp['jobs'])}_idle"] = copy.deepcopy(sp["jobs"][src])
+    stn = f"st{len(sp['storages'])}_free"
+    sp["storages"][stn] = dict(copy.deepcopy(sp["storages"][sp["servers"][svn]["storage"]]), fixed_nb_of_instances=None)
+    for prm, k_ in (("carbon_footprint_fabrication_per_storage_capacity", 3), ("power_per_storage_capacity", 2), ("idle_power", 2)):
+        q_ = sp["storages"][stn][prm]
+        sp["storages"][stn][prm] = {"m": q_["m"] * k_ + 1, "u": q_["u"]}          # another model of storage: other footprints
+    return sp, {"op": "setlink", "kind": "servers", "name": svn, "attr": "storage", "target": stn}
+
+
 def corner_ops(rng, spec, guarded):
     """edits aimed at the legal corners the generator plants (specgen corner_topologies): giving time to a
     journey in which no time is spent, changing one of several equal-valued inputs, placing an idle job"""
@@ -573,6 +606,13 @@ def live_accounting_shard(args):
             sp2 = specgen.plant_corners(spec, rng)
             if specgen.spec_is_safe(sp2, realsys.unit_info) and not history.has_shared_job(sp2):
                 spec = sp2
+        move_storage = None
+        if i % 4 == 2:
+            sp3, move_storage = with_idle_jobs(spec, rng)
+            if move_storage is not None and specgen.spec_is_safe(sp3, realsys.unit_info):
+                spec = sp3
+            else:
+                move_storage = None
         try:
             with watchdog(60):
                 live = Live(spec)
@@ -584,11 +624,9 @@ def live_accounting_shard(args):
             op = corner_ops(rng, live.spec, True) if step == 0 else None
             if step == 0 and i % 4 == 0:
                 # structural growth: a job of a server the system does not use yet, placed in a step without jobs
-                reach0 = reachable_spec_names(live.spec)
-                idle = [j for j, o in live.spec["jobs"].items() if j not in reach0 and o["server"] not in reach0]
-                empty = [s_ for s_ in live.spec["steps"] if s_ in reach0 and not live.spec["steps"][s_]["jobs"]]
-                if idle and empty:
-                    op = {"op": "listop", "kind": "steps", "name": rng.choice(sorted(empty)), "attr": "jobs", "method": "append", "args": [rng.choice(sorted(idle))]}
+                op = growth_op(live.spec, rng) or op
+            if step == 0 and i % 4 == 2 and move_storage is not None:
+                op = move_storage      # a server that also hosts jobs not placed in any step is moved to another storage
             if op is None:
                 op = gen_op(rng, live.spec, True)
             if op is None or not safe_after(live, op):
